@@ -88,6 +88,7 @@ type cwStep struct {
 }
 
 type cwWorld struct {
+	bigBatchDone  bool // preTx worlds: one inbound batch above the early chain's ETX count window has been handed over
 	node          *zoneNode
 	rc            *h.Rng
 	rg            cwRegime
@@ -348,6 +349,11 @@ func (w *cwWorld) synthInbound(blkNum uint64) types.Transactions {
 	n := rc.Intn(6)
 	if w.rg.preTx && rc.Chance(40) {
 		n = 40 + rc.Intn(120) // the ETX count window of the early chain
+	}
+	if w.rg.preTx && !w.bigBatchDone {
+		// every early-chain history sees at least one backlog above the window's upper end (100), right at the start
+		w.bigBatchDone = true
+		n = 105 + rc.Intn(50)
 	}
 	for i := 0; i < n; i++ {
 		lock := byte(rc.Intn(4))
